@@ -93,21 +93,14 @@ def check(d, ids=None):
         shutil.rmtree(scratch, ignore_errors=True)
         print('patch does not apply to /repo HEAD: ' + out[-300:])
         return None
-    ev_dir = os.path.join(VERIF, 'evidence')
-    backup = os.path.join(VERIF, '.build', 'evidence-backup-seeded-%d' % os.getpid())
-    shutil.rmtree(backup, ignore_errors=True)
-    shutil.copytree(ev_dir, backup)
     results = {}
     try:
         for pid in ids:
-            rc, out = sh('FFSM2_REPO=%s %s/check %s --repo %s' % (scratch, VERIF, pid, scratch), cwd=VERIF)
+            rc, out = sh('FFSM2_REPO=%s VERIF_EVIDENCE_DIR=%s/evidence VERIF_REPORT_DIR=%s/reports %s/check %s --repo %s' % (scratch, scratch, scratch, VERIF, pid, scratch), cwd=VERIF)
             viol = [l.strip() for l in out.splitlines() if l.strip().startswith('violated')]
             results[pid] = (rc, viol[:6], out.strip().splitlines()[-1][:200] if out.strip() else '')
     finally:
         shutil.rmtree(scratch, ignore_errors=True)
-        shutil.rmtree(ev_dir, ignore_errors=True)
-        shutil.copytree(backup, ev_dir)
-        shutil.rmtree(backup, ignore_errors=True)
     return results
 
 
